@@ -2,7 +2,8 @@
    Statements only; proofs are [exact] of lemmas in Resolver/CondFacts.v and Resolver/Spec.v. *)
 From Coq Require Import List Bool NArith ZArith Permutation.
 From PV Require Import Base.Str Base.Value Resolver.Consts Resolver.Text Resolver.Resolve Resolver.Spec Resolver.Ext
-  Resolver.Template Resolver.CondFacts Resolver.Memo Resolver.QTree Resolver.MemoFacts.
+  Resolver.Template Resolver.CondFacts Resolver.Memo Resolver.QTree Resolver.MemoFacts
+  Resolver.PermFacts Resolver.Trace Resolver.CondAlgebra.
 Import ListNotations.
 Local Open Scope N_scope.
 
@@ -180,3 +181,501 @@ Example C02_ex_memo_chain :
   | Err _ => ([], [])
   end = ([([66], true); ([65], true)], [([66], true); ([65], true)]).
 Proof. vm_compute. reflexivity. Qed.
+
+(* ================================================================================================================== *)
+(* The boolean algebra of condition expressions as the model evaluates them (Resolver/CondAlgebra.v).
+
+   [EAnd l], [EOr l], [ENot x], [EEquals a b], [ECond n], [EIf c t f]  the function objects {"Fn::And": l}, ..., {"Fn::If": [c, t, f]};
+   [tv e x]      the TRUTH VALUE of x: its resolved value read through _extended_bool (a condition function returns a Python bool, a leaf
+                 such as "true" resolves to the text "true": different values, same truth value);
+   [tv_ok e x]   x evaluates, and to something that reads as a boolean;  [tvb e x] that boolean;
+   Fn::And / Fn::Or evaluate their operands LEFT TO RIGHT AND STOP at the first deciding one (all / any over a generator), so an
+   operand that raises is hidden behind a deciding operand and not in front of it: laws that move operands need [tv_ok].          *)
+(* ================================================================================================================== *)
+
+(* Fn::And is the conjunction, Fn::Or the disjunction of the truth values of the operands -- for ANY number of operands *)
+Theorem C02_and_is_conjunction : forall e l, Forall (tv_ok e) l -> resolve e (EAnd l) = Ok (VBool (forallb (tvb e) l)).
+Proof. exact and_is_conjunction. Qed.
+Print Assumptions C02_and_is_conjunction.
+Theorem C02_or_is_disjunction : forall e l, Forall (tv_ok e) l -> resolve e (EOr l) = Ok (VBool (existsb (tvb e) l)).
+Proof. exact or_is_disjunction. Qed.
+Print Assumptions C02_or_is_disjunction.
+(* in general: the short-circuit conjunction / disjunction of the operands' truth values, errors included *)
+Theorem C02_and_or_short_circuit_fold : forall e l,
+  resolve e (EAnd l) = (b <- sc_all (map (tv e) l) ;; Ok (VBool b)) /\ resolve e (EOr l) = (b <- sc_any (map (tv e) l) ;; Ok (VBool b)).
+Proof. intros e l. split; [apply resolve_and_tv | apply resolve_or_tv]. Qed.
+Print Assumptions C02_and_or_short_circuit_fold.
+
+(* permutation invariance, and more: only the SET of operands matters (order, repetitions) *)
+Theorem C02_and_perm : forall e l l', Permutation l l' -> Forall (tv_ok e) l -> resolve e (EAnd l) = resolve e (EAnd l').
+Proof. exact and_perm. Qed.
+Print Assumptions C02_and_perm.
+Theorem C02_or_perm : forall e l l', Permutation l l' -> Forall (tv_ok e) l -> resolve e (EOr l) = resolve e (EOr l').
+Proof. exact or_perm. Qed.
+Print Assumptions C02_or_perm.
+Theorem C02_and_same_operands : forall e l l', Forall (tv_ok e) l -> Forall (tv_ok e) l' -> incl l l' -> incl l' l ->
+  resolve e (EAnd l) = resolve e (EAnd l').
+Proof. exact and_same_operands. Qed.
+Print Assumptions C02_and_same_operands.
+Theorem C02_or_same_operands : forall e l l', Forall (tv_ok e) l -> Forall (tv_ok e) l' -> incl l l' -> incl l' l ->
+  resolve e (EOr l) = resolve e (EOr l').
+Proof. exact or_same_operands. Qed.
+Print Assumptions C02_or_same_operands.
+(* without [tv_ok] the law is FALSE: {"Fn::And": ["false", "maybe"]} is false, {"Fn::And": ["maybe", "false"]} raises *)
+Theorem C02_and_perm_refuted : exists e l l', Permutation l l' /\
+  resolve e (EAnd l) = Ok (VBool false) /\ resolve e (EAnd l') = Err EValidation.
+Proof. exact and_perm_refuted. Qed.
+Print Assumptions C02_and_perm_refuted.
+Theorem C02_or_perm_refuted : exists e l l', Permutation l l' /\
+  resolve e (EOr l) = Ok (VBool true) /\ resolve e (EOr l') = Err EValidation.
+Proof. exact or_perm_refuted. Qed.
+Print Assumptions C02_or_perm_refuted.
+(* what does survive every reordering: two orders that both give a value give the same value *)
+Theorem C02_and_order_value_stable : forall e l l' b b', Permutation l l' ->
+  resolve e (EAnd l) = Ok (VBool b) -> resolve e (EAnd l') = Ok (VBool b') -> b = b'.
+Proof. exact and_order_value_stable. Qed.
+Print Assumptions C02_and_order_value_stable.
+
+(* idempotence, unconditionally: a second occurrence of an operand, anywhere after the first, can be deleted *)
+Theorem C02_and_duplicate : forall e l1 x l2 l3, resolve e (EAnd (l1 ++ x :: l2 ++ x :: l3)) = resolve e (EAnd (l1 ++ x :: l2 ++ l3)).
+Proof. exact and_duplicate. Qed.
+Print Assumptions C02_and_duplicate.
+Theorem C02_or_duplicate : forall e l1 x l2 l3, resolve e (EOr (l1 ++ x :: l2 ++ x :: l3)) = resolve e (EOr (l1 ++ x :: l2 ++ l3)).
+Proof. exact or_duplicate. Qed.
+Print Assumptions C02_or_duplicate.
+
+(* associativity / flattening, unconditionally (same value, same exception) *)
+Theorem C02_and_flatten : forall e l1 l2 l3, resolve e (EAnd (l1 ++ EAnd l2 :: l3)) = resolve e (EAnd (l1 ++ l2 ++ l3)).
+Proof. exact and_flatten. Qed.
+Print Assumptions C02_and_flatten.
+Theorem C02_or_flatten : forall e l1 l2 l3, resolve e (EOr (l1 ++ EOr l2 :: l3)) = resolve e (EOr (l1 ++ l2 ++ l3)).
+Proof. exact or_flatten. Qed.
+Print Assumptions C02_or_flatten.
+
+(* identity elements (deleted wherever they stand) and absorbing elements (decide when what stands in front of them evaluates) *)
+Theorem C02_and_unit : forall e l1 x l2, tv e x = Ok true -> resolve e (EAnd (l1 ++ x :: l2)) = resolve e (EAnd (l1 ++ l2)).
+Proof. exact and_unit. Qed.
+Print Assumptions C02_and_unit.
+Theorem C02_or_unit : forall e l1 x l2, tv e x = Ok false -> resolve e (EOr (l1 ++ x :: l2)) = resolve e (EOr (l1 ++ l2)).
+Proof. exact or_unit. Qed.
+Print Assumptions C02_or_unit.
+Theorem C02_and_zero : forall e l1 x l2, Forall (tv_ok e) l1 -> tv e x = Ok false -> resolve e (EAnd (l1 ++ x :: l2)) = Ok (VBool false).
+Proof. exact and_zero. Qed.
+Print Assumptions C02_and_zero.
+Theorem C02_or_zero : forall e l1 x l2, Forall (tv_ok e) l1 -> tv e x = Ok true -> resolve e (EOr (l1 ++ x :: l2)) = Ok (VBool true).
+Proof. exact or_zero. Qed.
+Print Assumptions C02_or_zero.
+Theorem C02_text_constants : forall e l1 l2,
+  resolve e (EAnd (l1 ++ VStr S_true :: l2)) = resolve e (EAnd (l1 ++ l2)) /\
+  resolve e (EOr (l1 ++ VStr S_false :: l2)) = resolve e (EOr (l1 ++ l2)) /\
+  (Forall (tv_ok e) l1 -> resolve e (EAnd (l1 ++ VStr S_false :: l2)) = Ok (VBool false)) /\
+  (Forall (tv_ok e) l1 -> resolve e (EOr (l1 ++ VStr S_true :: l2)) = Ok (VBool true)).
+Proof.
+  intros e l1 l2. split; [apply and_true_text | split; [apply or_false_text | split; [apply and_false_text | apply or_true_text]]].
+Qed.
+Print Assumptions C02_text_constants.
+Theorem C02_and_zero_refuted : exists e l1 l2, resolve e (EAnd (l1 ++ VStr S_false :: l2)) <> Ok (VBool false).
+Proof. exact and_zero_refuted. Qed.
+Print Assumptions C02_and_zero_refuted.
+
+(* De Morgan, unconditionally *)
+Theorem C02_de_morgan : forall e l,
+  resolve e (ENot (EAnd l)) = resolve e (EOr (map ENot l)) /\ resolve e (ENot (EOr l)) = resolve e (EAnd (map ENot l)).
+Proof. intros e l. split; [apply de_morgan_and | apply de_morgan_or]. Qed.
+Print Assumptions C02_de_morgan.
+(* double negation: the truth value of x, as a boolean *)
+Theorem C02_double_negation : forall e x,
+  tv e (ENot (ENot x)) = tv e x /\ resolve e (ENot (ENot x)) = (b <- tv e x ;; Ok (VBool b)).
+Proof. intros e x. split; [apply double_negation_tv | apply double_negation]. Qed.
+Print Assumptions C02_double_negation.
+(* ... not x's own value: Not (Not "true") is the boolean True, "true" resolves to the text "true" *)
+Theorem C02_double_negation_value_refuted : exists e x, tv e (ENot (ENot x)) = tv e x /\ resolve e (ENot (ENot x)) <> resolve e x.
+Proof. exact double_negation_value_refuted. Qed.
+Print Assumptions C02_double_negation_value_refuted.
+Theorem C02_complement : forall e x, tv_ok e x ->
+  resolve e (EAnd [x; ENot x]) = Ok (VBool false) /\ resolve e (EOr [x; ENot x]) = Ok (VBool true).
+Proof. intros e x H. split; [apply and_complement | apply or_complement]; exact H. Qed.
+Print Assumptions C02_complement.
+Theorem C02_distributivity : forall e a b c, tv_ok e a -> tv_ok e b -> tv_ok e c ->
+  resolve e (EAnd [a; EOr [b; c]]) = resolve e (EOr [EAnd [a; b]; EAnd [a; c]]) /\
+  resolve e (EOr [a; EAnd [b; c]]) = resolve e (EAnd [EOr [a; b]; EOr [a; c]]).
+Proof. intros e a b c Ha Hb Hc. split; [apply and_distributes_over_or | apply or_distributes_over_and]; assumption. Qed.
+Print Assumptions C02_distributivity.
+Theorem C02_absorption : forall e a b, tv_ok e a -> tv_ok e b ->
+  tv e (EAnd [a; EOr [a; b]]) = tv e a /\ tv e (EOr [a; EAnd [a; b]]) = tv e a.
+Proof. intros e a b Ha Hb. split; [apply absorption_and_or | apply absorption_or_and]; assumption. Qed.
+Print Assumptions C02_absorption.
+
+(* SHORT-CIRCUITING.  The model (and the library: all(...) / any(...) over a generator) stops at the first deciding operand: what
+   follows it is never evaluated, so an operand that would raise is hidden there -- and only there *)
+Theorem C02_short_circuit : forall e l1 x l2, Forall (fun y => tv e y = Ok true) l1 -> tv e x = Ok false ->
+  resolve e (EAnd (l1 ++ x :: l2)) = Ok (VBool false).
+Proof. exact and_short_circuit. Qed.
+Print Assumptions C02_short_circuit.
+Theorem C02_short_circuit_or : forall e l1 x l2, Forall (fun y => tv e y = Ok false) l1 -> tv e x = Ok true ->
+  resolve e (EOr (l1 ++ x :: l2)) = Ok (VBool true).
+Proof. exact or_short_circuit. Qed.
+Print Assumptions C02_short_circuit_or.
+(* the three outcomes of Fn::And characterised (true: [C02_and_true_iff] above) *)
+Theorem C02_and_false_iff : forall e l, resolve e (EAnd l) = Ok (VBool false) <->
+  exists l1 x l2, l = l1 ++ x :: l2 /\ Forall (fun y => tv e y = Ok true) l1 /\ tv e x = Ok false.
+Proof. exact and_false_iff. Qed.
+Print Assumptions C02_and_false_iff.
+Theorem C02_and_error_iff : forall e l k, resolve e (EAnd l) = Err k <->
+  exists l1 x l2, l = l1 ++ x :: l2 /\ Forall (fun y => tv e y = Ok true) l1 /\ tv e x = Err k.
+Proof. exact and_error_iff. Qed.
+Print Assumptions C02_and_error_iff.
+Theorem C02_or_true_iff : forall e l, resolve e (EOr l) = Ok (VBool true) <->
+  exists l1 x l2, l = l1 ++ x :: l2 /\ Forall (fun y => tv e y = Ok false) l1 /\ tv e x = Ok true.
+Proof. exact or_true_iff. Qed.
+Print Assumptions C02_or_true_iff.
+Theorem C02_or_error_iff : forall e l k, resolve e (EOr l) = Err k <->
+  exists l1 x l2, l = l1 ++ x :: l2 /\ Forall (fun y => tv e y = Ok false) l1 /\ tv e x = Err k.
+Proof. exact or_error_iff. Qed.
+Print Assumptions C02_or_error_iff.
+
+(* Fn::Equals.  Symmetric unless BOTH operands raise (then the exception of the first one met is reported) *)
+Theorem C02_equals_symmetric : forall e a b, env_nodup e -> nodup_keys a -> nodup_keys b ->
+  is_ok (resolve e a) = true \/ is_ok (resolve e b) = true ->
+  resolve e (EEquals a b) = resolve e (EEquals b a).
+Proof. exact equals_symmetric. Qed.
+Print Assumptions C02_equals_symmetric.
+Theorem C02_equals_symmetric_refuted : exists e a b, resolve e (EEquals a b) <> resolve e (EEquals b a).
+Proof. exact equals_symmetric_refuted. Qed.
+Print Assumptions C02_equals_symmetric_refuted.
+(* reflexive on every operand that resolves to text (all scalars) and on every value the model compares *)
+Theorem C02_equals_reflexive : forall e a,
+  (forall s, resolve e a = Ok (VStr s) -> resolve e (EEquals a a) = Ok (VBool true)) /\
+  (forall a', resolve e a = Ok a' -> nodup_keys a' -> is_ok (py_eq a' a') = true -> resolve e (EEquals a a) = Ok (VBool true)).
+Proof. intros e a. split; [intros s; apply equals_reflexive_scalar | intros a'; apply equals_reflexive]. Qed.
+Print Assumptions C02_equals_reflexive.
+(* characterised: scalars by the text of their rendering; lists (of lists ...) of texts by equality of the resolved lists; in
+   general by equality of the resolved values up to the order of the keys of objects *)
+Theorem C02_equals_scalars_iff : forall e a b sa sb, resolve e a = Ok (VStr sa) -> resolve e b = Ok (VStr sb) ->
+  (resolve e (EEquals a b) = Ok (VBool true) <-> sa = sb) /\ (resolve e (EEquals a b) = Ok (VBool false) <-> sa <> sb).
+Proof. exact equals_scalars_iff. Qed.
+Print Assumptions C02_equals_scalars_iff.
+Theorem C02_scalar_renderings : forall e,
+  (forall b, resolve e (VBool b) = Ok (VStr (bool_text b))) /\
+  (forall z, resolve e (VInt z) = Ok (VStr (str_of_Z z))) /\
+  (forall s, resolve e (VStr s) = Ok (VStr (render_str (params e) s))) /\
+  (forall k t, resolve e (VTyped k t) = Ok (VStr t)) /\
+  (forall bs, resolve e (VBytes bs) = Ok (VStr (b64encode bs))).
+Proof. exact scalar_renderings. Qed.
+Print Assumptions C02_scalar_renderings.
+Theorem C02_equals_flat_iff : forall e a b a' b', resolve e a = Ok a' -> resolve e b = Ok b' ->
+  no_dict a' = true -> has_numeric a' = false -> has_numeric b' = false ->
+  exists r, resolve e (EEquals a b) = Ok (VBool r) /\ (r = true <-> a' = b').
+Proof. exact equals_flat_iff. Qed.
+Print Assumptions C02_equals_flat_iff.
+Theorem C02_equals_characterised : forall e a b a' b', resolve e a = Ok a' -> resolve e b = Ok b' ->
+  has_numeric a' = false -> has_numeric b' = false -> nodup_keys a' -> nodup_keys b' ->
+  exists r, resolve e (EEquals a b) = Ok (VBool r) /\ (r = true <-> vperm a' b').
+Proof. exact equals_iff_vperm. Qed.
+Print Assumptions C02_equals_characterised.
+
+(* CONDITION REFERENCES.  [cond_ranked ps maps decl rk]: every condition that the body of a declared condition ASKS ABOUT (when
+   evaluated with the template's own condition values) has a smaller rank -- the references are acyclic.  Then the condition
+   values satisfy the defining equations, in every evaluation context, and are their only solution *)
+Theorem C02_acyclic_equations : forall ps maps decl rk, cond_ranked ps maps decl rk ->
+  (forall n body, lookup n decl = Some body ->
+     cond_root ps maps decl n = tv (CondFacts.cenv ps maps (cond_root ps maps decl)) body) /\
+  (forall n, lookup n decl = None -> cond_root ps maps decl n = Ok false).
+Proof. intros ps maps decl rk H. split; [apply (ranked_equation ps maps decl rk H) | apply undeclared_false]. Qed.
+Print Assumptions C02_acyclic_equations.
+Theorem C02_acyclic_context_free : forall ps maps decl rk, cond_ranked ps maps decl rk ->
+  forall n fuel rem, covers decl rk rem n -> (length rem < fuel)%nat ->
+  cond_val ps maps decl fuel rem n = cond_root ps maps decl n.
+Proof. exact ranked_context_free. Qed.
+Print Assumptions C02_acyclic_context_free.
+Theorem C02_acyclic_unique_solution : forall ps maps decl rk, cond_ranked ps maps decl rk ->
+  forall f : str -> res bool,
+  (forall n, lookup n decl = None -> f n = Ok false) ->
+  (forall n body, lookup n decl = Some body -> f n = tv (CondFacts.cenv ps maps f) body) ->
+  forall n, f n = cond_root ps maps decl n.
+Proof. exact ranked_unique. Qed.
+Print Assumptions C02_acyclic_unique_solution.
+Theorem C02_acyclic_checkable : forall ps maps decl rk, cond_rankedb ps maps decl rk = true -> cond_ranked ps maps decl rk.
+Proof. exact cond_rankedb_sound. Qed.
+Print Assumptions C02_acyclic_checkable.
+
+(* a boolean position ([bctx]: operand of Fn::And / Fn::Or / Fn::Not at any depth, where CloudFormation allows {"Condition": n})
+   uses only the truth value of what stands in it *)
+Theorem C02_boolean_position_congruence : forall e c x y, tv e x = tv e y -> tv e (plug c x) = tv e (plug c y).
+Proof. exact tv_plug. Qed.
+Print Assumptions C02_boolean_position_congruence.
+(* UNFOLDING: replacing, in the body of condition m, a reference {"Condition": n} by the declared body of n changes no condition
+   value, and the resolved model (Conditions and Resources) is the same *)
+Theorem C02_reference_unfolding : forall ps maps decl rk m n C bn,
+  cond_ranked ps maps decl rk ->
+  lookup m decl = Some (plug C (ECond n)) -> lookup n decl = Some bn ->
+  forall k, cond_root ps maps (set_key m (plug C bn) decl) k = cond_root ps maps decl k.
+Proof. exact unfold_reference. Qed.
+Print Assumptions C02_reference_unfolding.
+Theorem C02_reference_unfolding_model : forall pseudo decls extra maps cdecl rs rk m n C bn,
+  (forall ps, bind_params pseudo decls extra = Ok ps -> cond_ranked ps maps cdecl rk) ->
+  lookup m cdecl = Some (plug C (ECond n)) -> lookup n cdecl = Some bn ->
+  resolve_model pseudo decls extra maps (set_key m (plug C bn) cdecl) rs = resolve_model pseudo decls extra maps cdecl rs.
+Proof. exact unfold_reference_model. Qed.
+Print Assumptions C02_reference_unfolding_model.
+(* acyclicity is needed: A = Not (Condition A) is true (the self reference is cut as false); unfolded once, A = Not (Not (Condition A)), it is false *)
+Definition declSelf : list (str * value) := [([65], ENot (ECond [65]))].
+Theorem C02_reference_unfolding_cyclic_refuted :
+  lookup [65] declSelf = Some (plug (BNot BHole []) (ECond [65])) /\
+  cond_root [] [] declSelf [65] = Ok true /\
+  cond_root [] [] (set_key [65] (plug (BNot BHole []) (ENot (ECond [65]))) declSelf) [65] = Ok false.
+Proof. vm_compute. repeat split; reflexivity. Qed.
+Print Assumptions C02_reference_unfolding_cyclic_refuted.
+(* inside a RESOURCE, Condition / Fn::If see exactly the value of the declared condition *)
+Theorem C02_resource_sees_condition_values : forall ps maps decl resolved, cond_all ps maps decl (keys decl) = Ok resolved ->
+  forall n, conds_fun resolved n = cond_root ps maps decl n.
+Proof. exact conds_fun_is_cond_root. Qed.
+Print Assumptions C02_resource_sees_condition_values.
+(* REMOVING a condition that nobody asks about (no other condition, transitively; no resource gate; no kept resource): every other
+   condition keeps its value and the resources resolve to the same result.  (The same on the table of resolved values:
+   C07_resources_add_unused_condition; on parameters and mappings: C07_add_unused_parameter_declaration.) *)
+Theorem C02_remove_unasked_condition : forall ps maps decl n k, k <> n -> ~ In (ACond n) (cond_root_trace ps maps decl k) ->
+  cond_root ps maps (remove_key n decl) k = cond_root ps maps decl k.
+Proof. exact remove_unasked_condition. Qed.
+Print Assumptions C02_remove_unasked_condition.
+Theorem C02_remove_unasked_condition_model : forall ps maps decl rs n resolved,
+  (forall k, k <> n -> ~ In (ACond n) (cond_root_trace ps maps decl k)) ->
+  ~ In n (gate_names rs) ->
+  cond_all ps maps decl (keys decl) = Ok resolved ->
+  ~ In (ACond n) (resources_trace (renv ps maps resolved) resolved rs) ->
+  exists resolved', cond_all ps maps (remove_key n decl) (keys (remove_key n decl)) = Ok resolved' /\
+    (forall k, k <> n -> lookup k resolved' = lookup k resolved) /\
+    resolve_resources (renv ps maps resolved') resolved' rs = resolve_resources (renv ps maps resolved) resolved rs.
+Proof. exact remove_unasked_condition_model. Qed.
+Print Assumptions C02_remove_unasked_condition_model.
+
+(* Fn::If *)
+Theorem C02_if_same_branches : forall e c x b, conds e c = Ok b -> resolve e (EIf c x x) = resolve e x.
+Proof. exact if_same_branches. Qed.
+Print Assumptions C02_if_same_branches.
+Theorem C02_if_same_branches_resource : forall ps maps resolved c x,
+  resolve (renv ps maps resolved) (EIf c x x) = resolve (renv ps maps resolved) x.
+Proof. exact if_same_branches_resource. Qed.
+Print Assumptions C02_if_same_branches_resource.
+Theorem C02_if_same_branches_refuted : exists e c x, resolve e (EIf c x x) <> resolve e x.
+Proof. exact if_same_branches_refuted. Qed.
+Print Assumptions C02_if_same_branches_refuted.
+(* the first operand of Fn::If is the NAME of a condition: If on a condition whose value is the negation of c's swaps the branches *)
+Theorem C02_if_negated : forall e c c' t f, conds e c' = rneg (conds e c) -> resolve e (EIf c' t f) = resolve e (EIf c f t).
+Proof. exact if_negated. Qed.
+Print Assumptions C02_if_negated.
+Theorem C02_if_negated_resource : forall ps maps decl rk resolved c c' t f,
+  cond_ranked ps maps decl rk -> lookup c' decl = Some (ENot (ECond c)) -> cond_all ps maps decl (keys decl) = Ok resolved ->
+  resolve (renv ps maps resolved) (EIf c' t f) = resolve (renv ps maps resolved) (EIf c f t).
+Proof. exact if_negated_resource. Qed.
+Print Assumptions C02_if_negated_resource.
+Theorem C02_if_nested : forall e c a b d,
+  resolve e (EIf c (EIf c a b) d) = resolve e (EIf c a d) /\ resolve e (EIf c a (EIf c b d)) = resolve e (EIf c a d).
+Proof. intros e c a b d. split; [apply if_nested_then | apply if_nested_else]. Qed.
+Print Assumptions C02_if_nested.
+(* AWS::NoValue: the resolved list is the list of the members' results with exactly the AWS::NoValue results removed; its length *)
+Theorem C02_list_pruned_exactly : forall e l l', rlist e l = Ok l' <->
+  exists rs, Forall2 (fun x r => resolve e x = Ok r) l rs /\ l' = filter (fun r => negb (is_novalue r)) rs.
+Proof. exact rlist_spec. Qed.
+Print Assumptions C02_list_pruned_exactly.
+Theorem C02_list_length_after_pruning : forall e l l', resolve e (VList l) = Ok (VList l') ->
+  exists rs, Forall2 (fun x r => resolve e x = Ok r) l rs /\ l' = filter (fun r => negb (is_novalue r)) rs /\
+    (length l' + length (filter is_novalue rs) = length l)%nat.
+Proof. exact list_length_after_pruning. Qed.
+Print Assumptions C02_list_length_after_pruning.
+Theorem C02_object_pruned_exactly : forall e d d', rdict e d = Ok d' <->
+  exists rs, Forall2 (fun kx kr => fst kx = fst kr /\ resolve e (snd kx) = Ok (snd kr)) d rs /\
+             d' = filter (fun kr => negb (is_novalue (snd kr))) rs.
+Proof. exact rdict_spec. Qed.
+Print Assumptions C02_object_pruned_exactly.
+Theorem C02_if_novalue_member : forall e c nv x l, conds e c = Ok true -> resolve e nv = Ok (VStr S_NOVALUE) ->
+  rlist e (EIf c nv x :: l) = rlist e l.
+Proof. exact if_novalue_member. Qed.
+Print Assumptions C02_if_novalue_member.
+Theorem C02_if_value_member : forall e c nv x r l, conds e c = Ok false -> resolve e x = Ok r -> is_novalue r = false ->
+  rlist e (EIf c nv x :: l) = (l' <- rlist e l ;; Ok (r :: l')).
+Proof. exact if_value_member. Qed.
+Print Assumptions C02_if_value_member.
+
+(* THE GATE.  Which resources are present is decided by the gates alone; parameters / mappings that no condition reads (also
+   through the conditions it asks about: [conds_trace], Resolver/Trace.v) change no condition value, hence no resource's presence *)
+Theorem C02_present_resources : forall e resolved rs out, resolve_resources e resolved rs = Ok out ->
+  keys out = keys (filter (fun kv => gate_open resolved (snd kv)) rs).
+Proof. exact resolve_resources_keys. Qed.
+Print Assumptions C02_present_resources.
+Theorem C02_presence_unread_parameters : forall ps ps' maps maps' cdecl rs resolved out,
+  (forall k, In (AParam k) (conds_trace ps maps cdecl (keys cdecl)) -> lookup k ps = lookup k ps') ->
+  (forall m, In (AMap m) (conds_trace ps maps cdecl (keys cdecl)) -> lookup m maps = lookup m maps') ->
+  cond_all ps maps cdecl (keys cdecl) = Ok resolved ->
+  resolve_resources (renv ps maps resolved) resolved rs = Ok out ->
+  cond_all ps' maps' cdecl (keys cdecl) = Ok resolved /\
+  forall out', resolve_resources (renv ps' maps' resolved) resolved rs = Ok out' -> keys out' = keys out.
+Proof. exact presence_unread_parameters. Qed.
+Print Assumptions C02_presence_unread_parameters.
+Theorem C02_presence_one_parameter : forall ps maps cdecl k x,
+  ~ In (AParam k) (conds_trace ps maps cdecl (keys cdecl)) ->
+  cond_all ((k, x) :: ps) maps cdecl (keys cdecl) = cond_all ps maps cdecl (keys cdecl).
+Proof. exact presence_one_parameter. Qed.
+Print Assumptions C02_presence_one_parameter.
+
+(* ---- witnesses for the algebra: the hypotheses above are satisfiable on non-trivial instances ---- *)
+(* an environment: parameter P = "yes"; condition A true, B false, E raises, every other name false *)
+Definition exE : env :=
+  {| params := [([80], VStr [121;101;115])]; mappings := [];
+     conds := fun n => if str_eqb n [65] then Ok true else if str_eqb n [66] then Ok false
+                       else if str_eqb n [69] then Err ERecursion else Ok false |}.
+(* twelve operands (more than CloudFormation's ten), of every kind that reads as a boolean: a reference, the texts true / TRUE /
+   on / y / t, a negation, a Ref to "yes", the integer 1, a boolean, an Equals, an Or *)
+Definition exTrue12 : list value :=
+  [ECond [65]; VStr S_true; ENot (ECond [66]); VDict [(K_Ref, VStr [80])]; VInt 1; VBool true;
+   EEquals (VInt 1) (VStr [49]); EOr [ECond [66]; ECond [65]]; VStr [84;82;85;69]; VStr [111;110]; VStr [121]; VStr [116]].
+Example C02_ex_and_conjunction :
+  length exTrue12 = 12%nat /\ Forall (tv_ok exE) exTrue12 /\ Forall (tv_ok exE) (ECond [66] :: exTrue12) /\
+  resolve exE (EAnd exTrue12) = Ok (VBool true) /\ resolve exE (EAnd (ECond [66] :: exTrue12)) = Ok (VBool false) /\
+  resolve exE (EOr [ECond [66]; ECond [67]]) = Ok (VBool false) /\ resolve exE (EAnd []) = Ok (VBool true) /\ resolve exE (EOr []) = Ok (VBool false).
+Proof. repeat split; try (vm_compute; reflexivity); repeat constructor. Qed.
+Example C02_ex_and_perm :
+  Permutation (ECond [66] :: exTrue12) (rev (ECond [66] :: exTrue12)) /\ Forall (tv_ok exE) (ECond [66] :: exTrue12) /\
+  resolve exE (EAnd (ECond [66] :: exTrue12)) = Ok (VBool false) /\ resolve exE (EAnd (rev (ECond [66] :: exTrue12))) = Ok (VBool false).
+Proof. split; [apply Permutation_rev | split; [repeat constructor | split; vm_compute; reflexivity]]. Qed.
+(* same operands, other order and multiplicities *)
+Example C02_ex_and_same_operands :
+  incl [ECond [65]; ECond [66]; ECond [65]] [ECond [66]; ECond [65]] /\ incl [ECond [66]; ECond [65]] [ECond [65]; ECond [66]; ECond [65]] /\
+  Forall (tv_ok exE) [ECond [65]; ECond [66]; ECond [65]] /\ Forall (tv_ok exE) [ECond [66]; ECond [65]] /\
+  resolve exE (EAnd [ECond [65]; ECond [66]; ECond [65]]) = resolve exE (EAnd [ECond [66]; ECond [65]]).
+Proof.
+  split; [|split; [|split; [repeat constructor | split; [repeat constructor | vm_compute; reflexivity]]]].
+  - intros x [<-|[<-|[<-|[]]]]; simpl; auto.
+  - intros x [<-|[<-|[]]]; simpl; auto.
+Qed.
+(* the refutation, concretely: {"Fn::And": ["false", "maybe"]} / {"Fn::And": ["maybe", "false"]}, and with an operand E that raises *)
+Example C02_ex_order_matters :
+  resolve exE (EAnd [VStr S_false; VStr S_maybe]) = Ok (VBool false) /\ resolve exE (EAnd [VStr S_maybe; VStr S_false]) = Err EValidation /\
+  resolve exE (EOr [VStr S_true; VStr S_maybe]) = Ok (VBool true) /\ resolve exE (EOr [VStr S_maybe; VStr S_true]) = Err EValidation /\
+  resolve exE (EAnd [ECond [66]; ECond [69]]) = Ok (VBool false) /\ resolve exE (EAnd [ECond [69]; ECond [66]]) = Err ERecursion.
+Proof. vm_compute. repeat split; reflexivity. Qed.
+(* short-circuit: A true, "false" decides, then a text that is no boolean and a malformed Fn::Join are never looked at *)
+Example C02_ex_short_circuit :
+  Forall (fun y => tv exE y = Ok true) [ECond [65]] /\ tv exE (VStr S_false) = Ok false /\
+  resolve exE (EAnd ([ECond [65]] ++ VStr S_false :: [VStr S_maybe; VDict [(K_Join, VList [])]])) = Ok (VBool false) /\
+  resolve exE (VStr S_maybe) = Ok (VStr S_maybe) /\ tv exE (VStr S_maybe) = Err EValidation /\
+  resolve exE (VDict [(K_Join, VList [])]) = Err EValue.
+Proof. split; [repeat constructor | vm_compute; repeat split; reflexivity]. Qed.
+Example C02_ex_flatten_duplicate :
+  resolve exE (EAnd ([ECond [65]] ++ EAnd [ECond [65]; ECond [66]] :: [ECond [69]])) = Ok (VBool false) /\
+  resolve exE (EAnd ([ECond [65]] ++ [ECond [65]; ECond [66]] ++ [ECond [69]])) = Ok (VBool false) /\
+  resolve exE (EAnd ([] ++ ECond [65] :: [ECond [69]] ++ ECond [65] :: [])) = Err ERecursion /\
+  resolve exE (EAnd ([] ++ ECond [65] :: [ECond [69]] ++ [])) = Err ERecursion.
+Proof. vm_compute. repeat split; reflexivity. Qed.
+Example C02_ex_units : tv exE (ECond [65]) = Ok true /\ tv exE (ECond [66]) = Ok false /\ Forall (tv_ok exE) [ECond [65]; VStr S_true].
+Proof. split; [reflexivity | split; [reflexivity | repeat constructor]]. Qed.
+(* De Morgan and double negation also agree on the exception *)
+Example C02_ex_de_morgan :
+  resolve exE (ENot (EAnd [ECond [65]; ECond [66]; ECond [69]])) = Ok (VBool true) /\
+  resolve exE (EOr (map ENot [ECond [65]; ECond [66]; ECond [69]])) = Ok (VBool true) /\
+  resolve exE (ENot (EAnd [ECond [65]; ECond [69]])) = Err ERecursion /\
+  resolve exE (EOr (map ENot [ECond [65]; ECond [69]])) = Err ERecursion /\
+  resolve exE (ENot (ENot (VStr S_true))) = Ok (VBool true) /\ resolve exE (VStr S_true) = Ok (VStr S_true) /\
+  resolve exE (ENot (ENot (VStr S_maybe))) = Err EValidation.
+Proof. vm_compute. repeat split; reflexivity. Qed.
+Example C02_ex_complement_distributivity :
+  tv_ok exE (ECond [65]) /\ tv_ok exE (ECond [66]) /\ tv_ok exE (VDict [(K_Ref, VStr [80])]) /\
+  resolve exE (EAnd [ECond [65]; EOr [ECond [66]; VDict [(K_Ref, VStr [80])]]]) = Ok (VBool true) /\
+  resolve exE (EOr [EAnd [ECond [65]; ECond [66]]; EAnd [ECond [65]; VDict [(K_Ref, VStr [80])]]]) = Ok (VBool true).
+Proof. vm_compute. repeat split; reflexivity. Qed.
+
+(* Fn::Equals: lists and objects are compared structurally, objects up to key order; symmetric; error kinds when both raise *)
+Definition exObj1 : value := VDict [([97], VInt 1); ([98], VList [VStr [120]; VBool true])].
+Definition exObj2 : value := VDict [([98], VList [VStr [120]; VStr [84;114;117;101]]); ([97], VStr [49])].
+Example C02_ex_equals :
+  nodup_keys exObj1 /\ nodup_keys exObj2 /\ env_nodup exE /\ is_ok (resolve exE exObj1) = true /\
+  resolve exE (EEquals exObj1 exObj2) = Ok (VBool true) /\ resolve exE (EEquals exObj2 exObj1) = Ok (VBool true) /\
+  resolve exE (EEquals (VList [VInt 1; VStr [97]]) (VList [VStr [49]; VStr [97]])) = Ok (VBool true) /\
+  resolve exE (EEquals (VList [VInt 1; VStr [97]]) (VList [VStr [97]; VStr [49]])) = Ok (VBool false) /\
+  resolve exE (EEquals (VDict [(K_Join, VList [])]) (VDict [(K_Ref, VList [])])) = Err EValue /\
+  resolve exE (EEquals (VDict [(K_Ref, VList [])]) (VDict [(K_Join, VList [])])) = Err EType.
+Proof.
+  split; [reflexivity | split; [reflexivity | split; [|vm_compute; repeat split; reflexivity]]].
+  split; intros k x H; cbn [params mappings exE lookup] in H.
+  - destruct (str_eqb k [80]); [inv H; reflexivity | discriminate].
+  - discriminate.
+Qed.
+Example C02_ex_equals_characterised :
+  exists a' b', resolve exE exObj1 = Ok a' /\ resolve exE exObj2 = Ok b' /\ has_numeric a' = false /\ has_numeric b' = false /\
+    nodup_keys a' /\ nodup_keys b' /\ a' <> b' /\ vpermb a' b' = true.
+Proof. eexists _, _. vm_compute. repeat split; try reflexivity. discriminate. Qed.
+
+(* Conditions {C: And [Condition B, Or [Condition A, Condition D]], B: Not [Condition A], A: Equals [a, b], D: Equals [Ref P, yes]}
+   with P = "yes": acyclic (ranks A, D = 0, B = 1, C = 2); unfolding the reference to B inside C changes no value *)
+Definition exDecl : list (str * value) :=
+  [([67], EAnd [ECond [66]; EOr [ECond [65]; ECond [68]]]); ([66], ENot (ECond [65]));
+   ([65], EEquals (VStr [97]) (VStr [98])); ([68], EEquals (VDict [(K_Ref, VStr [80])]) (VStr [121;101;115]))].
+Definition exRank (n : str) : nat := if str_eqb n [67] then 2 else if str_eqb n [66] then 1 else 0.
+Definition exHole : bctx := BAnd [] BHole [EOr [ECond [65]; ECond [68]]].
+Example C02_ex_acyclic :
+  cond_rankedb (params exE) [] exDecl exRank = true /\
+  lookup [67] exDecl = Some (plug exHole (ECond [66])) /\ lookup [66] exDecl = Some (ENot (ECond [65])) /\
+  set_key [67] (plug exHole (ENot (ECond [65]))) exDecl =
+    [([67], EAnd [ENot (ECond [65]); EOr [ECond [65]; ECond [68]]]); ([66], ENot (ECond [65]));
+     ([65], EEquals (VStr [97]) (VStr [98])); ([68], EEquals (VDict [(K_Ref, VStr [80])]) (VStr [121;101;115]))] /\
+  map (cond_root (params exE) [] exDecl) [[65]; [66]; [67]; [68]; [90]] = [Ok false; Ok true; Ok true; Ok true; Ok false] /\
+  map (cond_root (params exE) [] (set_key [67] (plug exHole (ENot (ECond [65]))) exDecl)) [[65]; [66]; [67]; [68]; [90]] =
+    [Ok false; Ok true; Ok true; Ok true; Ok false].
+Proof. vm_compute. repeat split; reflexivity. Qed.
+(* the in-progress set of the context-freeness statement: evaluating B while C is in progress *)
+Example C02_ex_covers : covers exDecl exRank [[66]; [65]; [68]] [66] /\
+  cond_val (params exE) [] exDecl 4 [[66]; [65]; [68]] [66] = Ok true.
+Proof.
+  split; [|vm_compute; reflexivity]. intros i Hi Hr. unfold exRank in Hr. cbn [keys map fst exDecl mem_str existsb] in *.
+  destruct (str_eqb i [67]) eqn:E67; [cbn in Hr; exfalso; destruct (str_eqb [66] [67]) eqn:E; [discriminate | cbn in Hr; inversion Hr as [|? Hr']; inversion Hr'] |].
+  cbn [orb] in Hi. exact Hi.
+Qed.
+(* nobody asks about Z: it can be removed *)
+Definition exDeclZ : list (str * value) := ([90], ENot (ECond [67])) :: exDecl.
+Definition exRes : list (str * value) :=
+  [([82], VDict [(K_Type, VStr [84]); (K_Condition, VStr [67]);
+                 ([78], VList [EIf [66] (VStr S_NOVALUE) (VStr [98]); VStr [97]; EIf [65] (VStr S_NOVALUE) (VStr [99])])]);
+   ([83], VDict [(K_Type, VStr [84]); (K_Condition, VStr [65])])].
+Example C02_ex_remove_unasked :
+  map (cond_root_trace (params exE) [] exDeclZ) [[65]; [66]; [67]; [68]] = [[]; [ACond [65]]; [ACond [66]; ACond [65]; ACond [68]; ACond [65]; AParam [80]]; [AParam [80]]] /\
+  gate_names exRes = [[67]; [65]] /\
+  cond_all (params exE) [] exDeclZ (keys exDeclZ) = Ok [([90], false); ([67], true); ([66], true); ([65], false); ([68], true)] /\
+  resources_trace (renv (params exE) [] [([90], false); ([67], true); ([66], true); ([65], false); ([68], true)])
+                  [([90], false); ([67], true); ([66], true); ([65], false); ([68], true)] exRes = [ACond [66]; ACond [65]] /\
+  remove_key [90] exDeclZ = exDecl.
+Proof. vm_compute. repeat split; reflexivity. Qed.
+
+(* Fn::If and AWS::NoValue inside a list: resource R (kept: C is true) has N = [If B NoValue "b", "a", If A NoValue "c"] -> ["a", "c"];
+   resource S (Condition A, false) is absent *)
+Example C02_ex_if_pruning :
+  resolve_resources (renv (params exE) [] [([67], true); ([66], true); ([65], false); ([68], true)])
+                    [([67], true); ([66], true); ([65], false); ([68], true)] exRes =
+    Ok [([82], VDict [(K_Type, VStr [84]); (K_Condition, VStr [67]); ([78], VList [VStr [97]; VStr [99]])])] /\
+  rlist exE [EIf [65] (VStr S_NOVALUE) (VStr [98]); VStr [97]; EIf [66] (VStr S_NOVALUE) (VStr [99]); VStr S_NOVALUE] = Ok [VStr [97]; VStr [99]] /\
+  conds exE [65] = Ok true /\ resolve exE (VStr S_NOVALUE) = Ok (VStr S_NOVALUE) /\
+  conds exE [66] = Ok false /\ resolve exE (VStr [99]) = Ok (VStr [99]) /\ is_novalue (VStr [99]) = false.
+Proof. vm_compute. repeat split; reflexivity. Qed.
+Example C02_ex_if_laws :
+  resolve exE (EIf [65] (VStr [120]) (VStr [120])) = Ok (VStr [120]) /\
+  resolve exE (EIf [69] (VStr [120]) (VStr [120])) = Err ERecursion /\
+  conds exE [66] = rneg (conds exE [65]) /\
+  resolve exE (EIf [66] (VStr [116]) (VStr [102])) = Ok (VStr [102]) /\ resolve exE (EIf [65] (VStr [102]) (VStr [116])) = Ok (VStr [102]) /\
+  resolve exE (EIf [65] (EIf [65] (VStr [97]) (VStr [98])) (VStr [100])) = Ok (VStr [97]).
+Proof. vm_compute. repeat split; reflexivity. Qed.
+(* B is declared as Not (Condition A): inside resources If B t f = If A f t *)
+Example C02_ex_if_negated_resource :
+  lookup [66] exDecl = Some (ENot (ECond [65])) /\
+  cond_all (params exE) [] exDecl (keys exDecl) = Ok [([67], true); ([66], true); ([65], false); ([68], true)] /\
+  resolve (renv (params exE) [] [([67], true); ([66], true); ([65], false); ([68], true)]) (EIf [66] (VStr [116]) (VStr [102])) = Ok (VStr [116]) /\
+  resolve (renv (params exE) [] [([67], true); ([66], true); ([65], false); ([68], true)]) (EIf [65] (VStr [102]) (VStr [116])) = Ok (VStr [116]).
+Proof. vm_compute. repeat split; reflexivity. Qed.
+
+(* the gate: the conditions read parameter P only; a parameter Q can be set to anything, the same resources are present *)
+Example C02_ex_presence :
+  conds_trace (params exE) [] exDecl (keys exDecl) = [ACond [66]; ACond [65]; ACond [68]; ACond [65]; AParam [80]; ACond [65]; AParam [80]] /\
+  cond_all (([81], VStr [110;111]) :: params exE) [] exDecl (keys exDecl) = cond_all (params exE) [] exDecl (keys exDecl) /\
+  (exists out, resolve_resources (renv (params exE) [] [([67], true); ([66], true); ([65], false); ([68], true)])
+                                 [([67], true); ([66], true); ([65], false); ([68], true)] exRes = Ok out /\ keys out = [[82]]) /\
+  (* ... while P is read: flipping it flips D, hence C, hence the presence of R *)
+  cond_all (([80], VStr [110;111]) :: params exE) [] exDecl (keys exDecl) = Ok [([67], false); ([66], true); ([65], false); ([68], false)].
+Proof. vm_compute. repeat split; try reflexivity. eexists. split; reflexivity. Qed.
